@@ -9,10 +9,12 @@ data frames carrying its system bytes and checks their stream/function (and the 
 from __future__ import annotations
 
 import itertools
+import threading
+import time
 
 from checks.c03 import _items_catalogue, build
 from checks.c19 import parse_shipped
-from lib import e5ref, gen, vtime
+from lib import e5ref, gen, stuck, vtime, wire
 
 PROPERTY = "C08"
 LEVEL = "exploration"
@@ -21,7 +23,7 @@ RULE = ("sequences of 1-30 primaries against host and equipment handlers: S/F dr
         "(C03 generator), empty, truncated, random bytes, wrong item type; with and without W-bit; user callbacks registered "
         "through register_stream_function that return a secondary, raise, or are unregistered again (also after they served "
         "a primary); a primary that reuses the system bytes of a request of the handler that ran into T3; distinct by "
-        "(role, S/F, W, body class, body bytes); non-trivial when the W-bit is set or a callback exists; plus: a quarter of the sequences run on a handler that was disabled and enabled again once or twice")
+        "(role, S/F, W, body class, body bytes); non-trivial when the W-bit is set or a callback exists; plus: a quarter of the sequences run on a handler that was disabled and enabled again once or twice; W-bit primaries over a scripted SECS-I line (single block numbered 1 or 0, two blocks; with callback, without, uncatalogued)")
 ASSUMPTIONS = ["a library callback that does not read the body may answer a malformed body with its normal secondary: the "
                "allowed replies to a handled primary are {S,F+1} and {S,0}", "a failing callback on a message without W-bit may "
                "or may not emit SxF0 (the statement constrains only the no-error case)",
@@ -32,7 +34,7 @@ LEVEL_NOTE = "Sampled inputs; the reply rules are those of the property statemen
 TECHNIQUE = "runtime wire monitor (exactly-once / same-system-bytes reply oracle) over generated primaries"
 SHARDS = {"quick": 8, "thorough": 16}
 TIMEOUT = {"quick": 400, "thorough": 3400}
-FLOORS = {"expected.secondary.equipment": 20, "expected.secondary.host": 20, "expected.s9f5.equipment": 20, "expected.s9f5.host": 20,
+FLOORS = {"oracle.secsi_primaries": 40, "expected.secondary.equipment": 20, "expected.secondary.host": 20, "expected.s9f5.equipment": 20, "expected.s9f5.host": 20,
           "expected.abort_or_secondary.equipment": 20, "expected.abort_or_secondary.host": 20, "expected.none.equipment": 20,
           "expected.none.host": 20, "expected.user_abort": 10, "user_callback.lifecycle_probes": 20,
           "collision_probe.primaries_reusing_system_bytes_of_a_timed_out_request": 5}
@@ -354,10 +356,90 @@ def _collision_probe(ctx, rig, role, sysgen):
                       {"role": role, "primary": "S1F1W", "system": hex(system), "replies": [x.describe() for x in replies]})
 
 
+def _secsi_primaries(ctx, rounds):
+    """The same duty behind the SECS-I block transfer: primaries with W-bit arrive over a scripted SECS-I line - as one block
+    numbered 1, as one block numbered 0 (E4 allows both for a single-block message), or in several blocks - with and without a
+    callback registered for them; each is answered by exactly one message carrying its system bytes."""
+    import secsgem.common
+    import secsgem.secs
+    from checks.c06 import LinePeer
+    from lib.secsirig import PipeSecsISettings
+
+    rng = ctx.rng
+
+    class _Rig:                    # what LinePeer needs of a rig
+        pass
+    for r in range(rounds):
+        host = rng.random() < 0.5
+        settings = PipeSecsISettings(port=f"VPIPE-C08-{ctx.shard}-{r}", device_type=secsgem.common.DeviceType.HOST if host else secsgem.common.DeviceType.EQUIPMENT)
+        handler = secsgem.secs.SecsHandler(settings)
+        handler.register_stream_function(1, 1, lambda h, m: h.stream_function(1, 2)())
+        handler.enable()
+        rig = _Rig()
+        rig.pipe = settings.pipe
+        peer = LinePeer(rig)
+        rig.pipe.connect()
+        sysgen = gen.system_bytes(rng, 0x00A00000 + rng.randrange(1 << 12) * 64, p=0.1)
+        try:
+            for k in range(rng.randint(4, 9)):
+                system = next(sysgen)
+                kind = rng.choice(["callback", "callback", "no-callback", "no-callback", "uncatalogued"])
+                s_f = {"callback": (1, 1), "no-callback": rng.choice([(2, 17), (1, 3), (2, 25)]), "uncatalogued": (rng.choice([64, 99]), 1)}[kind]
+                numbering = rng.choice(["one", "zero", "multi"])
+                if s_f == (1, 1):
+                    body = b""
+                    numbering = rng.choice(["one", "zero"])
+                elif numbering == "multi":
+                    body = bytes([0x21, 0xFF]) + rng.randbytes(255) + bytes([0x21, 200]) * 0       # a B item of 255 bytes: two blocks
+                else:
+                    body = b"" if s_f != (2, 25) else bytes([0x21, 3, 1, 2, 3])
+                chunks = [body[i:i + 244] for i in range(0, len(body), 244)] or [b""]
+                raws = []
+                for i, chunk in enumerate(chunks):
+                    blockno = 0 if (numbering == "zero" and len(chunks) == 1) else i + 1
+                    raws.append(wire.secs1_block(wire.secs1_header(0, not host, s_f[0], True, s_f[1], blockno, i == len(chunks) - 1, system), chunk))
+                n0 = len(peer.complete)
+                sent_ok = peer.send_blocks(raws, timeout=10.0)
+                ctx.count("oracle.secsi_primaries")
+                ctx.case(("secsi-primary", host, kind, numbering, len(chunks)), nontrivial=True)
+                wit = {"transport": "SECS-I", "role": "host" if host else "equipment", "primary": f"S{s_f[0]}F{s_f[1]}W({system:#x})",
+                       "handler_for_it": kind, "blocks": len(chunks), "single_block_numbered": numbering if len(chunks) == 1 else None}
+                if not sent_ok:
+                    ctx.violation("secsi:valid-primary-block-not-acknowledged", {**wit, "stray": peer.stray[:3]})
+                    return
+
+                def answers():
+                    return [c for c in peer.complete[n0:] if c[0]["system"] == system]
+                end = time.monotonic() + 4.0
+                while time.monotonic() < end and not answers():
+                    time.sleep(0.002)
+                if not answers():
+                    end = time.monotonic() + 2.0            # grace before "absent"
+                    while time.monotonic() < end and not answers():
+                        time.sleep(0.005)
+                time.sleep(0.05)
+                got = answers()
+                if len(got) != 1:
+                    ctx.violation(f"secsi:primary-not-answered-exactly-once:{len(got)}-answers", {
+                        **wit, "answers": [f"S{c[0]['stream']}F{c[0]['function']}" for c in got],
+                        "other_messages": [f"S{c[0]['stream']}F{c[0]['function']}({c[0]['system']:#x})" for c in peer.complete[n0:]][:4]})
+                    return
+                f0 = got[0][0]
+                if f0["wbit"] or f0["stream"] not in (s_f[0], 9) or (kind == "callback" and (f0["stream"], f0["function"]) != (1, 2)):
+                    ctx.violation("secsi:answer-is-not-a-secondary-of-the-primary", {**wit, "answer": f"S{f0['stream']}F{f0['function']}{'W' if f0['wbit'] else ''}"})
+                    return
+        finally:
+            peer.stop = True
+            th = threading.Thread(target=stuck.harness_thread(handler.disable), daemon=True, name="harness-disable")
+            th.start()
+            th.join(5.0)
+
+
 def run(ctx):
     from secsgem.secs.functions._all import secs_streams_functions
 
     vtime.install()
+    _secsi_primaries(ctx, 3 if ctx.quick else 60)
     classes = {(c.stream, c.function): c for c in secs_streams_functions}
     cat = _items_catalogue()
     n = 60 if ctx.quick else 1500
